@@ -149,7 +149,9 @@ func (s *Spec) bondOp(name string, o scen.Oracle, amt sdkmath.Int, bridger world
 			if mustReject != "" {
 				st.Violate("bond-rules", sig("bond-accepted-"+mustReject), name+" was accepted")
 			}
-			m.Staked[o.Name] = amt.String()
+			if mustReject != "by-an-oracle-that-is-bonded-already" {
+				m.Staked[o.Name] = amt.String()
+			}
 		}
 	}}
 }
@@ -213,6 +215,12 @@ func (s *Spec) Ops(st *explore.State) []explore.Op {
 			ops = append(ops, s.bondOp("Bond(o3,max+1)", o3, max.AddRaw(1), o3.Bridger, o3.ExtAddr, "above-maximum"))
 			ops = append(ops, s.bondOp("Bond(o3,min,bridger=o1's)", o3, thr, o1.Bridger, o3.ExtAddr, "with-bridger-of-another-oracle"))
 			ops = append(ops, s.bondOp("Bond(o3,min,external=o1's)", o3, thr, o3.Bridger, o1.ExtAddr, "with-external-address-of-another-oracle"))
+		}
+	}
+	if s.Collide {
+		// an oracle that is bonded already bonds again (other bridger, other external address): one record per oracle
+		if k.HasOracle(ctx, o1.Acct.Acc()) {
+			ops = append(ops, s.bondOp("Bond(o1,again,new-bridger,new-external)", o1, thr, world.NewActor("o1-bridger-again"), scen.ExtAddr(s.Chain, "o1-external-again"), "by-an-oracle-that-is-bonded-already"))
 		}
 	}
 	for _, o := range s.os {
